@@ -348,11 +348,19 @@ Fixpoint oracle (q held gone : list nat) (tr : list obs) : N :=
 
 (* One key of one case: number of Lock calls, trace, and what the key's map entry looked like
    after quiescence (entry present?, callers still queued). *)
-Record kcase := { k_n : nat; k_trace : list obs; k_entry : bool; k_len : nat }.
+(* k_ttl: for every caller that was removed by its TTL watchdog: (caller, TTL asked in us, time in
+   us between the instant its ready channel was closed - it became head, measured under q.mu before
+   the close - and its removal by the watchdog).  The watchdog's timer is armed with the TTL after the
+   caller has been granted, so the second number can never be below the first. *)
+Record kcase := { k_n : nat; k_trace : list obs; k_entry : bool; k_len : nat; k_ttl : list (nat * Z * Z) }.
+
+Definition ttl_early (x : nat * Z * Z) : bool := (snd x <? snd (fst x))%Z.
 
 Definition check_key (prune : bool) (c : kcase) : N :=
   match oracle [] [] [] (k_trace c) with
   | 0%N =>
+      (* code 9: a holder was released by its TTL before the TTL had run since it was granted *)
+      if existsb ttl_early (k_ttl c) then 9%N else
       (* after quiescence every Lock call has returned and every TTL has fired: a queue object
          that is still in the map with nobody queued is per-key state of a released key (C28) *)
       if prune && k_entry c && Nat.eqb (k_len c) 0 then 6%N else
